@@ -331,6 +331,14 @@ func genC05CLI(t *rapid.T) CLIPairCase {
 	}
 	c := CLIPairCase{A: pc.A, B: pc.B, Bin: gen.Pick(t, "bin", []string{"jd-v2", "jd-top", "jd-top-v1"})}
 	c.Flags = optFlags(pc.Opts)
+	if gen.Chance(t, "blanksAroundKeys", 60) {
+		// the usage text allows blanks around the keys: "-setkeys id, name"
+		for i, f := range c.Flags {
+			if strings.HasPrefix(f, "-setkeys=") {
+				c.Flags[i] = "-setkeys= " + strings.ReplaceAll(strings.TrimPrefix(f, "-setkeys="), ",", " , ") + " "
+			}
+		}
+	}
 	if !jdx.IsMerge(pc.Opts) {
 		switch gen.Int(t, "format", 0, 5) {
 		case 0:
